@@ -12,6 +12,7 @@
 //! and the bytes accepted are a prefix of the fault-free output.
 
 mod docs;
+mod styped;
 
 use docs::Doc;
 use serde_json::{Value, json};
@@ -99,6 +100,8 @@ enum REntry {
     FromReader,
     WithDeReader,
     ReadIter,
+    /// `serde_saphyr::read` (default options, no cap); only for the targets of `styped`
+    ReadPlain,
 }
 
 impl REntry {
@@ -107,12 +110,14 @@ impl REntry {
             REntry::FromReader => "from_reader",
             REntry::WithDeReader => "with_de_reader",
             REntry::ReadIter => "read_iter",
+            REntry::ReadPlain => "read",
         }
     }
     fn from_name(s: &str) -> REntry {
         match s {
             "with_de_reader" => REntry::WithDeReader,
             "read_iter" => REntry::ReadIter,
+            "read" => REntry::ReadPlain,
             _ => REntry::FromReader,
         }
     }
@@ -145,6 +150,10 @@ fn run_reader(
             REntry::FromReader => vec![canon(&(t.from_reader)(&mut r, o))],
             REntry::WithDeReader => vec![canon(&(t.with_de_reader)(&mut r, o))],
             REntry::ReadIter => (t.read_iter)(&mut r, o, max_items).iter().map(canon).collect(),
+            REntry::ReadPlain => match styped::plain_reader(t.name) {
+                Some(f) => f(&mut r, max_items).iter().map(canon).collect(),
+                None => (t.read_iter)(&mut r, o, max_items).iter().map(canon).collect(),
+            },
         };
         let stats = st.borrow().clone();
         let fired_at = *fa.borrow();
@@ -292,7 +301,7 @@ fn check_fault_case(run: &Run, l: &mut Local, c: &FaultCase, reference: &RRun) {
         let sig = if matches!(c.f, RFault::EofAfterBytes(_)) && !bom.is_empty() {
             // behind a UTF-8 BOM the decoder transcodes lossily: the cut character becomes U+FFFD
             "C10:reader:eof-inside-codepoint-after-bom:no-error".to_string()
-        } else if c.e == REntry::ReadIter {
+        } else if matches!(c.e, REntry::ReadIter | REntry::ReadPlain) {
             format!(
                 "C10:reader:iter:fault-swallowed:{}:{}",
                 silent_shape(&r.items, &reference.items),
@@ -319,7 +328,7 @@ fn check_fault_case(run: &Run, l: &mut Local, c: &FaultCase, reference: &RRun) {
         run.inconclusive("iterator produced more than 4x the fault-free number of items after a fault (cut off by the harness)");
         return;
     }
-    if c.e == REntry::ReadIter {
+    if matches!(c.e, REntry::ReadIter | REntry::ReadPlain) {
         // Ok items: equal to the fault-free item of the same index, from a fully delivered document
         let first_err = r.items.iter().position(|i| matches!(i, Canon::Err(..))).unwrap_or(r.items.len());
         for (i, it) in r.items.iter().enumerate() {
@@ -367,7 +376,16 @@ fn check_fault_case(run: &Run, l: &mut Local, c: &FaultCase, reference: &RRun) {
 }
 
 /// Sweep every fault position of one document.
-fn sweep_doc(run: &Run, l: &mut Local, doc: &Doc, t: &Target, chunkings: &[Chunking], transient_step: usize, positions: Option<&[usize]>) {
+fn sweep_doc(
+    run: &Run,
+    l: &mut Local,
+    doc: &Doc,
+    t: &Target,
+    chunkings: &[Chunking],
+    transient_step: usize,
+    positions: Option<&[usize]>,
+    entries: &[REntry],
+) {
     let data = doc.text.as_bytes();
     let n = data.len();
     // evidence: how many cut positions leave a prefix that is itself a complete stream
@@ -383,7 +401,7 @@ fn sweep_doc(run: &Run, l: &mut Local, doc: &Doc, t: &Target, chunkings: &[Chunk
     }
     let inside: Vec<usize> = (1..n).filter(|k| data[*k] & 0xC0 == 0x80).collect();
     for ch in chunkings {
-        for e in ALL_RENTRIES {
+        for &e in entries {
             run.eval();
             let reference = match run_reader(t, e, data, base_opts(None), ch, &RFault::None, 10_000) {
                 Ok(r) => r,
@@ -878,7 +896,8 @@ fn writer_vals(seed: u64, tier: Tier) -> Vec<Val> {
 
 fn replay(run: &Run, case: &Value) {
     let mut l = Local::default();
-    let t = targets::by_name(case["target"].as_str().unwrap_or("Val")).unwrap_or(targets::by_name("Val").unwrap());
+    let tn = case["target"].as_str().unwrap_or("Val");
+    let t = targets::by_name(tn).or_else(|| styped::by_name(tn)).unwrap_or(targets::by_name("Val").unwrap());
     match case["section"].as_str().unwrap_or("") {
         "reader-fault" => {
             let doc = Doc {
@@ -976,10 +995,10 @@ fn main() {
             _ => vec![Chunking::Every(1), Chunking::Every(7)],
         };
         let step = if thorough { 1 } else { 3 };
-        sweep_doc(&run, &mut l, &doc, val_t, &chunkings, step, None);
+        sweep_doc(&run, &mut l, &doc, val_t, &chunkings, step, None, &ALL_RENTRIES);
         if i % 2 == 0 {
             let t = typed[1 + (i / 2) % (typed.len() - 1)];
-            sweep_doc(&run, &mut l, &doc, t, &chunkings[..1], step, None);
+            sweep_doc(&run, &mut l, &doc, t, &chunkings[..1], step, None, &ALL_RENTRIES);
         }
         check_cap_small(&run, &mut l, &doc, val_t);
         if i % 37 == 0 {
@@ -1015,7 +1034,7 @@ fn main() {
         l.add("docs/large", 1);
         l.add("large_doc_sampled_positions", ps.len() as u64);
         let chunkings = [Chunking::Whole, Chunking::Every(4096), Chunking::Every(1000)];
-        sweep_doc(&run, &mut l, &doc, val_t, &chunkings[i % 3..i % 3 + 1], 1, Some(&ps));
+        sweep_doc(&run, &mut l, &doc, val_t, &chunkings[i % 3..i % 3 + 1], 1, Some(&ps), &ALL_RENTRIES);
         l.flush(&run);
     });
 
@@ -1067,6 +1086,27 @@ fn main() {
         l.flush(&run);
     });
 
+    // ================= 5. scalar-root documents into typed scalar targets (taken with a bare next())
+    let sdocs = styped::scalar_docs();
+    let stargets: Vec<&'static Target> = styped::all().collect();
+    run.count("scalar_root_documents", sdocs.len() as u64);
+    let n_s = if on(5) { sdocs.len() * stargets.len() } else { 0 };
+    par_range(n_s, |ix| {
+        let mut l = Local::default();
+        let doc = &sdocs[ix / stargets.len()];
+        let t = stargets[ix % stargets.len()];
+        let chunkings = [Chunking::Whole, Chunking::Every(1)];
+        let all4 = [REntry::FromReader, REntry::WithDeReader, REntry::ReadIter, REntry::ReadPlain];
+        // quick: both chunkings for the numeric/bool/char targets on every document; thorough: everything
+        let chs: &[Chunking] = if thorough || ix % 2 == 0 { &chunkings } else { &chunkings[1..] };
+        sweep_doc(&run, &mut l, doc, t, chs, 1, None, &all4);
+        l.add("docs/scalar-root-x-typed-target", 1);
+        if ix % 97 == 0 {
+            run.sample(|| json!({"section": "reader-fault", "class": doc.class, "text": doc.text, "target": t.name}));
+        }
+        l.flush(&run);
+    });
+
     // ================= 4. writer faults
     let vals = writer_vals(run.seed, tier);
     let recs = docs::records();
@@ -1093,7 +1133,7 @@ fn main() {
     });
 
     let scope = format!(
-        "reader: for each of the {n_docs} generated documents (<= 2 KiB; families: block documents and streams whose truncated prefixes are complete documents, generated trees, flow, special shapes) x chunkings x {{from_reader, with_deserializer_from_reader, read iterator}}: hard error after byte k for EVERY k in 0..=len, hard error on read call k for EVERY k below the fault-free call count, EOF at EVERY byte offset inside a multi-byte character{}; writer: for every value of the set ({} values: all base trees with <= {} nodes as Val, seeded random Val trees, 3 derived records) x option vectors: failing write call k for EVERY k in 0..=fault-free call count and failure after n accepted bytes for EVERY n in 0..=len (sticky and fail-once; short writes 0/1/3/7)",
+        "reader: for each of the {n_docs} generated documents (<= 2 KiB; families: block documents and streams whose truncated prefixes are complete documents, generated trees, flow, special shapes) and of every scalar-root document/stream of the fixed list x typed targets {{u64, i64, f64, bool, char, u8, i128, f32, Option<u64>, String, Val}} incl. serde_saphyr::read x chunkings x {{from_reader, with_deserializer_from_reader, read iterator}}: hard error after byte k for EVERY k in 0..=len, hard error on read call k for EVERY k below the fault-free call count, EOF at EVERY byte offset inside a multi-byte character{}; writer: for every value of the set ({} values: all base trees with <= {} nodes as Val, seeded random Val trees, 3 derived records) x option vectors: failing write call k for EVERY k in 0..=fault-free call count and failure after n accepted bytes for EVERY n in 0..=len (sticky and fail-once; short writes 0/1/3/7)",
         if thorough { ", and the fail-once variants at every k" } else { " (fail-once variants at every 3rd k)" },
         vals.len() + recs.len(),
         tier.pick(3, 4)
